@@ -18,7 +18,20 @@ ExtraOK(name) ==
     \/ ~HasExtras \/ Cfg.k \notin {"WelfordOnline", "WelfordRolling"} \/ ~OIsValue(ObsNow)
     \/ Matches(ExtraNow(name), <<"n">>, ExtraDef(Cfg, name, Raw), EpsQ)
 
+(* C14 "bit-exactly": when the definition's answer is a dyadic rational with at most 12 binary places and
+   the operands reach the node without any rounding (children that are Echo, Constant or Sma(1|2|4) over
+   Echo; dyadic inputs), IEEE arithmetic must return exactly that number *)
+ExactKid(n) == \/ n.k \in {"Echo", "Constant", "Probe"}
+               \/ (n.k = "Sma" /\ n.n \in {1, 2, 4} /\ ~HasField(n, "c"))
+PointwiseExact == /\ Cfg.k \in {"Add", "Subtract", "Multiply", "Divide", "GTE", "LTE", "Echo", "Constant"}
+                  /\ ExactKid(ChildOf(Cfg, 1)) /\ ExactKid(ChildOf(Cfg, 2))
+BitExactOK == LET r == TreeDef(Cfg, Raw) IN
+              \/ ~HasField(Scope, "bitexact") \/ ~PointwiseExact
+              \/ r[1] # "q" \/ ~QIsDyadic12(r[2])
+              \/ (Tally("bitexact") /\ OExactlyQ(ObsNow, r[2]))
+
 Verdict == /\ Tally("states")
+           /\ (BitExactOK \/ Report(Prop, "bit-exact"))
            /\ (ValueOK \/ Report(Prop, "value"))
            /\ (ExtraOK("mean") \/ Report(Prop, "mean"))
 =============================================================================
